@@ -40,6 +40,7 @@ def run_history(ctx, case, history, tmpdir, use_recorder_class):
         return
     step = "open"
     try:
+        data = RC.effective_data(case, data)
         cands, probs = RC.expected_blocks(case, data, reader)
         reader.open()
         # data before the first rewind must raise
